@@ -214,10 +214,11 @@ structure Cfg where
   templates : Bool
 deriving Repr, DecidableEq
 
-/-- request: has a template/gzip extension (.html), offers gzip -/
+/-- request: has a template/gzip extension (.html), offers gzip, is a HEAD request -/
 structure Req where
   html : Bool
   ae   : Bool
+  head : Bool := false
 deriving Repr, DecidableEq
 
 /-- httpContext.InspectServerBlocks: a site with `gzip` but without `errors` gets a plain
@@ -238,5 +239,115 @@ def chain (c : Cfg) (r : Req) (i : Inner) : Beh :=
   if c.log then logW b4 else b4
 
 def serve (c : Cfg) (r : Req) (i : Inner) : Resp := runOps (serverW (chain c r i))
+
+/-! ### what net/http puts on the wire (trusted, as documented)
+
+No body for a HEAD request and for the statuses 204 and 304 — whatever the handlers wrote is
+dropped —; Content-Length is not sent with 204 and 304, it is kept for HEAD (it describes the body
+a GET would get).  Informational 1xx headers precede the response header and are not part of it;
+the model does not have them: the stream sends a 103 before some written responses and expects
+the response to be the one without it. -/
+
+def bodiless (head : Bool) (status : Nat) : Bool := head || status = 204 || status = 304
+
+def wire (head : Bool) (r : Resp) : Resp :=
+  if bodiless head r.status then
+    { r with body := [], cl := if r.status = 204 || r.status = 304 then none else r.cl }
+  else r
+
+def serveWire (c : Cfg) (r : Req) (i : Inner) : Resp := wire r.head (serve c r i)
+
+/-! ### what outlives a request
+
+The site's middleware chain (`Cfg`) is built once and never written by a request; the `errors`
+handler's `Next` is assigned when the chain is compiled.  What a request can touch and leave
+behind are pooled scratch objects — the gzip writers of `writerPool` (setup.go), the buffers of
+the templates `BufPool` — and the access log.  A pooled object still holds what its last user put
+into it; `getWriter` / `buf.Reset()` clear it when it is taken, and the deferred `putWriter` /
+`BufPool.Put` return it also when the handler below panics (defers run during the unwinding). -/
+
+structure Pooled where
+  content : List Chunk
+deriving Repr, DecidableEq
+
+structure ServerState where
+  gzPool   : List Pooled   -- gzip: writerPool[level]
+  tplPool  : List Pooled   -- templates: BufPool
+  logLines : Nat           -- entries written to the access log so far
+deriving Repr, DecidableEq
+
+/-- sync.Pool.Get: a pooled object if there is one, else a new one -/
+def getObj : List Pooled → Pooled × List Pooled
+  | [] => (⟨[]⟩, [])
+  | p :: ps => (p, ps)
+
+/-- `buf.Reset()` / `w.Reset(ioutil.Discard)`; `resetOnGet = false` is the hypothetical server
+that forgets it (used only to show that the isolation theorem is about this mechanism) -/
+def takeClean (resetOnGet : Bool) (p : Pooled) : List Chunk := if resetOnGet then [] else p.content
+
+/-- what a scratch object that was not cleared would add to the output: its old content ahead
+of the first bytes written through it -/
+def leak (pre : List Chunk) (enc : Bool) : List WOp → List WOp
+  | [] => []
+  | .write c e :: r => pre.map (fun p => WOp.write p enc) ++ .write c e :: r
+  | op :: r => op :: leak pre enc r
+
+/-- templates uses its buffer for this request (otherwise it streams) -/
+def tplBuffers (html : Bool) (i : Inner) : Bool := html || i.beh.ops.isEmpty
+
+/-- what the request leaves in the templates buffer -/
+def tplLeaves (html : Bool) (i : Inner) : List Chunk :=
+  if tplBuffers html i then (templatesW html i).ops.filterMap (fun o => match o with
+    | .write c _ => some c
+    | _ => none) else []
+
+def templatesSt (pre : List Chunk) (html : Bool) (i : Inner) : Beh :=
+  let b := templatesW html i
+  if tplBuffers html i then ⟨leak pre false b.ops, b.out⟩ else b
+
+/-- the gzip writer is taken from the pool when the decision to compress is taken, i.e. at
+the first WriteHeader / Write of the handlers below -/
+def gzUses (b : Beh) : Bool := b.ops.any fun o => match o with
+  | .hdr _ => true
+  | .write _ _ => true
+  | .setCL _ => false
+
+def gzLeaves (b : Beh) : List Chunk := b.ops.filterMap fun o => match o with
+  | .write c _ => some c
+  | _ => none
+
+def gzipSt (pre : List Chunk) (b : Beh) : Beh :=
+  let g := gzipW b
+  ⟨leak pre true g.ops, g.out⟩
+
+/-- the deferred Put: the object taken (or made) for this request goes back into its pool -/
+def putBack (used : Bool) (leaves : List Chunk) (pool : List Pooled) : List Pooled :=
+  if used then ⟨leaves⟩ :: (getObj pool).2 else pool
+
+def logAfter (logged : Bool) (n : Nat) : Nat := if logged then n + 1 else n
+
+/-- one request against the server state: the response, and the state it leaves -/
+def serveSt (resetOnGet : Bool) (c : Cfg) (r : Req) (i : Inner) (st : ServerState) : Resp × ServerState :=
+  let tbuf := (getObj st.tplPool).1
+  let b1 := if c.templates then templatesSt (takeClean resetOnGet tbuf) r.html i else i.beh
+  let b2 := match effectiveErrors c with
+    | some m => errorsW m b1
+    | none => b1
+  let b3 := if c.header then headerW b2 else b2
+  let gz := c.gzip && r.html && r.ae
+  let gw := (getObj st.gzPool).1
+  let b4 := if gz then gzipSt (takeClean resetOnGet gw) b3 else b3
+  let b5 := if c.log then logW b4 else b4
+  (runOps (serverW b5),
+   { tplPool := putBack c.templates (tplLeaves r.html i) st.tplPool,
+     gzPool := putBack (gz && gzUses b3) (gzLeaves b3) st.gzPool,
+     logLines := logAfter (c.log && b4.out != .panic) st.logLines })
+
+/-- a sequence of requests on one server -/
+def serveAll (c : Cfg) : ServerState → List (Req × Inner) → List Resp
+  | _, [] => []
+  | st, (r, i) :: rest =>
+    let (resp, st') := serveSt true c r i st
+    resp :: serveAll c st' rest
 
 end Casket.Mw
